@@ -36,6 +36,19 @@ func TwoRetNoErr(s string) (string, int)     { return s, 0 }
 func Variadic(s ...string) string            { return "" }
 func Generic[T any](t T) T                   { return t }
 
+// MyErr implements error; a function whose last result is *MyErr does NOT return the error type:
+// wired as "x, err = f()" a nil *MyErr becomes a non-nil error (typed nil), so such functions are
+// no error-returning converters / hooks (README: the error type).
+type MyErr struct{}
+
+func (*MyErr) Error() string { return "my" }
+
+// ErrLike is a named interface type embedding error - still not the error type.
+type ErrLike interface{ error }
+
+func TypedErr(s string) (string, *MyErr)         { return s, nil }
+func ErrLikeConv(s string) (string, ErrLike)     { return s, nil }
+func HookTypedErr(dst *Dst, src *Src) *MyErr     { return nil }
 func HookGood(dst *Dst, src *Src) error          { return nil }
 func HookNoErr(dst *Dst, src *Src)               {}
 func HookZeroArg()                               {}
